@@ -2242,8 +2242,12 @@ static vbi_bool vbi_proxyd_take_message( PROXY_CLNT *req, VBIPROXY_MSG * pMsg )
             }
             else if (pBody->chn_notify_req.notify_flags & VBI_PROXY_CHN_TOKEN)
             {
-               req->chn_state.token_state = REQ_TOKEN_RETURNED;
-               chn_upd = TRUE;
+               /* only the token owner can return the token */
+               if (req->chn_state.token_state != REQ_TOKEN_NONE)
+               {
+                  req->chn_state.token_state = REQ_TOKEN_RETURNED;
+                  chn_upd = TRUE;
+               }
             }
 
             if (chn_upd)
